@@ -50,7 +50,7 @@ class Concretiser:
             n = m.eval(Q.Length(term), model_completion=True).as_long()
             if n > 64:
                 raise CannotConcretise("list too long in model")
-            return [self.val(term[i], ty.elem) for i in range(n)]
+            return [self.val(Q.At(term, z3.IntVal(i)), ty.elem) for i in range(n)]
         if isinstance(ty, TTuple):
             dt = E.U.dt(ty)
             return tuple(self.val(dt.accessor(0, i)(term), e) for i, e in enumerate(ty.elems))
@@ -105,11 +105,28 @@ def _m(s):
     return "".join(c if c.isalnum() else "_" for c in s)
 
 
+_SUB = {}
+
+
+def _concrete(cls):
+    """abstract bases (ABCDataclass refuses to instantiate its direct subclasses) get a trivial concrete subclass"""
+    try:
+        from codemodder.utils.abc_dataclass import ABCDataclass
+    except Exception:
+        return cls
+    if isinstance(cls, type) and issubclass(cls, ABCDataclass) and cls.__bases__[0] is ABCDataclass:
+        if cls not in _SUB:
+            _SUB[cls] = type("Replay" + cls.__name__, (cls,), {})
+        return _SUB[cls]
+    return cls
+
+
 def _blank(cls):
-    return object.__new__(cls)
+    return object.__new__(_concrete(cls))
 
 
 def _build(cls, kw):
+    cls = _concrete(cls)
     try:
         return cls(**kw)
     except Exception:
@@ -168,9 +185,11 @@ def try_replay(E, qualname, model, entry_state, entry_frame, clause, kind):
             return out
         env = dict(args)
         env.update({"result": result, "implies": implies, "iff": iff, "old": lambda x: x})
-        if "old(" in clause:
-            raise CannotConcretise("clause uses old(): native evaluation not supported")
-        ok = eval(clause, {"__builtins__": __builtins__}, env)
+        if "old(" in clause or "ANY(" in clause:
+            raise CannotConcretise("clause uses old()/ANY(): native evaluation not supported")
+        g = {"__builtins__": __builtins__}
+        g.update(env)      # generator expressions inside eval() resolve free names in globals
+        ok = eval(clause, g)
         out["reproduced"] = not bool(ok)
         out["detail"] = f"real result = {_short(result)}; clause evaluates to {bool(ok)}"
         return out
